@@ -419,25 +419,49 @@ fn apply(f: Fault, env: &mut Env, k: usize) -> bool {
         Fault::FdStarvedFlowsClient | Fault::FdStarvedFlowsServer => {
             let (port, pid) = if f == Fault::FdStarvedFlowsServer { (sp, env.cl.server.pid) } else { (cp, env.cl.client.pid) };
             let limit = env.cl.spec.nofile.unwrap_or(0) as usize;
+            // Fill exactly: connect until the process's descriptor count stops growing (a connection that is not accepted
+            // any more sits in the listen queue and would swallow the first descriptor that is freed), and give those last
+            // ones up again.
             let mut v = vec![];
-            let mut peak = 0;
+            let mut peak = procfs::fd_count(pid);
+            let mut stalled = 0;
             for _ in 0..(limit + 40) {
-                if let Some(s) = connect(port) {
-                    v.push(s);
+                let Some(s) = connect(port) else { break };
+                v.push(s);
+                let t0 = Instant::now();
+                let mut grew = false;
+                while t0.elapsed() < Duration::from_millis(60) {
+                    let n = procfs::fd_count(pid);
+                    if n > peak {
+                        peak = n;
+                        grew = true;
+                        break;
+                    }
+                    std::thread::sleep(Duration::from_millis(2));
                 }
-                peak = peak.max(procfs::fd_count(pid));
+                if grew {
+                    stalled = 0;
+                } else {
+                    stalled += 1;
+                    if stalled >= 2 {
+                        break;
+                    }
+                }
             }
-            std::thread::sleep(Duration::from_millis(200));
+            for _ in 0..stalled {
+                v.pop();
+            }
+            std::thread::sleep(Duration::from_millis(150));
             peak = peak.max(procfs::fd_count(pid));
-            // connections beyond the limit sit in the accept queue; the process holds `peak` descriptors. Free them one at a
-            // time (oldest first: those are the accepted ones) and attempt a whole flow after each release.
+            // Free the descriptors one at a time (oldest first) and attempt a whole flow after each release: the flow gets
+            // one descriptor more each time and fails one step later.
             let mut attempts = 0;
             let l = Listener::bind();
             for step in 0..7 {
                 if !v.is_empty() {
                     drop(v.remove(0));
                 }
-                std::thread::sleep(Duration::from_millis(60));
+                std::thread::sleep(Duration::from_millis(80));
                 if let Ok((mut app, _)) = net::app_connect(cp, Hs::Socks5V4, l.port, Duration::from_millis(700)) {
                     let _ = app.write_all(&junk(500, salt + step));
                     if let Some(mut t) = l.accept(Duration::from_millis(500)) {
@@ -563,8 +587,15 @@ pub fn exec_once(c: &Case) -> CaseResult {
             fail = Some((true, "udp-service-down-after-faults/existing-session".into(), format!("an existing, well-behaved UDP session is no longer relayed after the fault sequence: {} {}", e, ctx_of(&env))));
         }
     }
-    if fail.is_none() {
-        // listeners still bound
+    // listeners still bound? /proc/net/{tcp,udp} is not read atomically (a socket can be missed while other sockets come
+    // and go), so an absent socket is looked for again a few times before it is called gone
+    for attempt in 0..6 {
+        if fail.is_some() {
+            break;
+        }
+        if attempt > 0 {
+            std::thread::sleep(Duration::from_millis(150));
+        }
         let ex = Cluster::server_expect(&spec);
         let socks = procfs::socks_of(env.cl.server.pid);
         if ex.tcp && !socks.iter().any(|s| s.proto == "tcp" && s.local_port == env.cl.server_port && s.state == procfs::TCP_LISTEN) {
@@ -578,6 +609,13 @@ pub fn exec_once(c: &Case) -> CaseResult {
         }
         if spec.udp && !procfs::binds_udp(env.cl.client.pid, env.cl.client_port) {
             fail = Some((false, "client-udp-socket-gone".into(), format!("the client no longer holds its UDP port {}", ctx_of(&env))));
+        }
+        if fail.is_none() {
+            break;
+        }
+        if attempt < 5 {
+            // look again
+            fail = None;
         }
     }
     if let Err(h) = env.cl.health() {
